@@ -165,6 +165,9 @@ def main(argv=None):
 def conclude(prop, mod, tier, seed, m, errs, wall):
     known = load_known()
     c = m["counters"]
+    if os.environ.get("VERIF_DUMP"):
+        with open(os.environ["VERIF_DUMP"], "w") as f:
+            json.dump({"violations": m["violations"], "known": m["known"]}, f, default=str)
     # ---- violations grouped by class
     by_cls = {}
     for v in m["violations"]:
